@@ -493,6 +493,10 @@ def forward_signatures(func, calls, args, kwargs, sig):
         fwdkwargsvals.update(rn(fwdvarkwargs))
         using_partial = wrapped_func == functools.partial
         if using_partial:
+            if not fwdargsvals:
+                # functools.partial(*args, **kwargs): the callable is
+                # whatever comes first in *args
+                raise UnknownForwards
             wrapped_func = fwdargsvals.pop(0)
         try:
             wrapped_sig = forged_signature(
